@@ -1,4 +1,5 @@
 import HidVerif.Sphinx.VM
+import HidVerif.Hid.Machine
 open HidVerif HidVerif.Sphinx
 
 def bytesToLines (b : ByteArray) : List (List Char) := Id.run do
@@ -33,7 +34,22 @@ def runCase (c : Case) : String :=
     | .ok l =>
       let r := VM.runLoaded l { fuel := c.fuel }
       s!"{c.id}\tvm\t{VM.renderOutcome r.outcome}\t{r.steps}\t{r.backtracks}\t{r.pending}\t{VM.renderTrace r.events}"
-  vmPart
+  let optNat (key : String) (dflt : Nat) : Nat :=
+    (c.opts.findSome? (fun o => if o.startsWith (key ++ "=") then (o.drop (key.length + 1)).toString.toNat? else none)).getD dflt
+  let srcPart :=
+    if c.ast.isEmpty then "" else
+    let text := (c.ast.map (fun l => l ++ [' '])).flatten
+    match Hid.Sexp.parse text >>= Hid.toProgram with
+    | .error e => s!"{c.id}\tsrc\tasterror:{e.replace "\t" " "}\t0\t0\t0\t"
+    | .ok prog =>
+      let E : Hid.Env := { w := optNat "w" 2, checked := !c.opts.contains "unchecked",
+                           stackBytes := optNat "stackbytes" 1000000, prog := prog }
+      match Hid.initCfg E c.args with
+      | .error e => s!"{c.id}\tsrc\tiniterror:{e}\t0\t0\t0\t"
+      | .ok c0 =>
+        let r := (Hid.machine E).run Hid.isDone (fun _ => #[]) c.fuel c0
+        s!"{c.id}\tsrc\t{VM.renderOutcome r.outcome}\t{r.steps}\t{r.backtracks}\t{r.pending}\t{VM.renderTrace r.events}"
+  if vmPart != "" && srcPart != "" then vmPart ++ "\n" ++ srcPart else vmPart ++ srcPart
 
 partial def parseBatch (ls : List (List Char)) (cur : Case) (acc : Array Case) : Array Case :=
   match ls with
